@@ -7,6 +7,7 @@ TECH="symbolic execution of go/ssa + SMT (z3), native replay of witnesses and co
 claimed={
  "C01": ("Bounded symbolic model checking of the sanitisation of every string class that reaches the terminal from outside: JSON strings through the accessor, HTML text/attribute data as the parser can deliver it (any scalar), and raw response bytes quoted in error items; one oracle (no C0/DEL/C1 outside servitor's own SGR sequences) decided over all byte/rune values within the bound.", "4/C01"),
  "C06": ("Bounded symbolic model checking of crash-freedom: the real constructors and every item method run on well-formed base objects in which one key is dropped or replaced by an arbitrary JSON value (symbolic booleans and doubles, candidate strings, lists, objects), at negative, zero and positive widths and for every 64-bit link number; every reachable panic is a violation. The 'promptly' half of the statement is outside this technique (DESIGN 6).", "4/C06"),
+ "C07": ("Bounded symbolic model checking of ui.Update against a reference model of the documented keymap: every byte value for each key of short sequences over thread, list and empty pages, and one key from arbitrary states including over-long selection numbers; mode, buffer, history position and highlighted item must match after background loads settle, and no key may panic.", "4/C07"),
  "C10": ("Bounded symbolic model checking of pub.Collection.Harvest through its continuations: symbolic page chains (embedded pages, empty pages, failing and ill-typed links, cycles), symbolic request sizes and start offset; delivered items must be the true sequence in order, a short answer or an error item must be justified by the end of the chain, a failing page or more than three consecutive empty pages.", "4/C10"),
  "C11": ("Bounded symbolic model checking of splicer.Splicer.Harvest over synthetic sources with symbolic timestamps and request sizes: every emitted item must be the next item of its source and a newest head (ties to the first source), answers are repeatable, a short answer means every source is exhausted, and the continuation is either empty or usable.", "4/C11"),
  "C12": ("Bounded symbolic model checking of link numbering: symbolic tree shapes over link-bearing and wrapper elements (harness-built html.Node graphs) at symbolic widths, and whole posts/profiles built by the real constructors from JSON with attachments; the numbers parsed by the terminal model must be exactly 1..N and SelectLink(k), for every 64-bit k, must open the target labelled k or nothing.", "4/C12"),
